@@ -234,7 +234,16 @@ GAUSSIAN_OK = set(ONE_GATES + TWO_GATES + PREPS + ["LossChannel", "ThermalLossCh
 
 
 def gen_params(rng, name, small, gen):
-    """Parameter values: boundary-heavy; `small` keeps the energy low for Fock legs."""
+    """Parameter values: boundary-heavy; `small` keeps the energy low for Fock legs.  A few values are Python ints
+    (users write Rgate(1), BSgate(1, 0)): integer arithmetic on a parameter must not change the operation."""
+    p = _gen_params(rng, name, small, gen)
+    if p and name in ("Rgate", "BSgate", "MZgate", "sMZgate") and rng.random() < 0.06:
+        p = list(p)
+        p[int(rng.integers(len(p)))] = int(rng.choice([0, 1, -1, 2]))
+    return p
+
+
+def _gen_params(rng, name, small, gen):
     amp = (lambda: gen.small(rng, 0.3)) if small else (lambda: float(rng.choice([0.0, rng.uniform(-1.0, 1.0)],
                                                                                   p=[0.1, 0.9])))
     if name in ("Dgate", "Coherent"):
